@@ -20,12 +20,15 @@ def budget(tier):
 
 
 def gen_link_program(rng):
-    prog = [['add', 0, 1, {'a': 1}], ['add', 0, 2, {'a': 1}], ['add', 2, 1, {'a': 1}], ['add', 2, 2, {'a': 1}], ['commit']]
+    # in half of the programs one article and one label have the primary key 0 (a falsy key is a key like any other)
+    ka = [0, 2] if rng.random() < 0.5 else [1, 2]
+    kl = [1, 0] if rng.random() < 0.5 else [1, 2]
+    prog = [['add', 0, ka[0], {'a': 1}], ['add', 0, ka[1], {'a': 1}], ['add', 2, kl[0], {'a': 1}], ['add', 2, kl[1], {'a': 1}], ['commit']]
     linked = set()
-    alive_a, alive_l = {1, 2}, {1, 2}
+    alive_a, alive_l = set(ka), set(kl)
     for _ in range(rng.randint(4, 14)):
         r = rng.random()
-        a, l = rng.choice([1, 2]), rng.choice([1, 2])
+        a, l = rng.choice(ka), rng.choice(kl)
         if r < 0.45 and a in alive_a and l in alive_l:
             if (a, l) in linked:
                 prog.append([rng.choice(['unlink', 'unlink_rev']), a, l])
